@@ -262,7 +262,12 @@
 )
 
 (func $__Vec$withCapacity (param $_this (ref eq)) (param $cap i32) (result (ref $_Vec))
-  (struct.new $_Vec (array.new $_VecData (ref.null eq) (local.get $cap)) (i32.const 0))
+  ;; the capacity is a hint: a negative one means no preallocation
+  (struct.new $_Vec
+    (array.new $_VecData
+      (ref.null eq)
+      (select (local.get $cap) (i32.const 0) (i32.gt_s (local.get $cap) (i32.const 0))))
+    (i32.const 0))
 )
 
 (func $__Vec$of (param $_this (ref eq)) (param $v (ref null eq)) (result (ref $_Vec))
